@@ -145,7 +145,7 @@ theorem CInv.frame {rem : List Cb} {e0 : EvId} {s s' : KState ℚ σ} (hc : CInv
       have h2 : e < s'.events.size := lt_of_cbs_some s' e L' hL'
       obtain ⟨_, L, hL, hp⟩ := h.fresh e (Nat.le_of_not_lt he) h2
       rw [hL] at hL'; cases hL'; exact hp
-  refine ⟨?_, ?_, ?_, ?_, ?_, ?_, ?_, hc.rem_bld_own, hc.rem_bld_cnt, ?_, ?_, ?_, ?_, ?_⟩
+  refine ⟨?_, ?_, ?_, ?_, ?_, ?_, ?_, hc.rem_bld_own, hc.rem_bld_cnt, ?_, ?_, ?_, ?_, ?_, ?_⟩
   · intro c e he; rw [hS.ops_eq] at he; exact hc.older c e he
   · intro c hg e L' hL'
     have hg' : ¬ Gone rem s c := fun hh => hg ((h.gone_iff rem c).mpr hh)
@@ -181,6 +181,9 @@ theorem CInv.frame {rem : List Cb} {e0 : EvId} {s s' : KState ℚ σ} (hc : CInv
     · cases hcc : isCond s c with
       | true => exact absurd (lt_of_isCond s c hcc) he
       | false => exact absurd (ops_nil_of_not_cond hcc) hne
+  · intro hne
+    obtain ⟨h1, h2⟩ := hc.e0_done hne
+    exact ⟨Nat.lt_of_lt_of_le h1 h.size_le, (h.cbsNone e0 h1).mpr h2⟩
   · intro c hcond hout hg
     rw [hS.isCond_eq] at hcond
     have hlt := lt_of_isCond s c hcond
